@@ -127,6 +127,7 @@ def explore_all(prop, specs, jobs):
             agg['points'] += summ['points']
             agg['transitions'] += summ['transitions']
             agg['collapsed'] += summ['collapsed']
+            agg['truncated'] = agg.get('truncated', 0) + summ.get('truncated', 0)
             agg['traces'].update((summ['id'] if DISTINCT_BY_SCENARIO else summ['family'], t) for t in summ['traces'])
             agg['triggered'] += summ['triggered']
             for k, n in summ['verdicts'].items():
@@ -189,6 +190,7 @@ def finish(prop, tier, seed, mod, agg, known_what):
         completed_deviation_level=min([f['completed_level'] for f in agg['families'].values() if f['completed_level'] is not None], default=None),
         scenarios_capped=len(agg['capped']),
         spin_collapsed_points=agg['collapsed'],
+        executions_with_choice_points_beyond_cap=agg.get('truncated', 0),
         bus_order_permutations=len(agg.get('orders', ())),
         verdicts=agg['verdicts'],
         families=fams,
